@@ -2,7 +2,9 @@
    and of (offset, leader epoch) into the event's Offset, Plugin.Commit, and kgo's marked heads.
    The four packing functions and the data flow of Commit are NOT written here: they are the
    definitions of Gen/KafkaGen.v, generated from the Go AST on every check, so every shift width,
-   mask and the `+ 1` is the one in /repo.  No proofs here (Proofs/Kafka.v). *)
+   factor, mask and the `+ 1` is the one in /repo. Nothing here or in Proofs/Kafka.v depends on the
+   shape of those definitions (lets, names, << 16 or * 65536, & 0xFFFF or uint16(..)): only on what
+   they compute.  No proofs here (Proofs/Kafka.v). *)
 From Verif Require Import Base.Sx Base.GoSem Model.KafkaInt Gen.KafkaGen.
 
 (* ---- the packing (generated) -------------------------------------------------------------- *)
@@ -50,7 +52,9 @@ Fixpoint mark_update (m : marks) (k : key) (h : eo) : marks :=
 (* ---- Plugin.Commit ------------------------------------------------------------------------
    index, partition := disassembleSourceID(event.SourceID); offset := disassembleOffset(event.Offset)
    MarkCommitOffsets({p.config.Topics[index]: {partition: offset}})
-   (the roles of the unpacked values come from gen_commit_target; Topics[index] can panic) *)
+   (gen_commit_target = Commit executed symbolically by the translator, helpers inlined: the topic
+   index, the partition key and the EpochOffset of the one entry handed to MarkCommitOffsets;
+   Topics[index] — read exactly once — can panic) *)
 Definition commit (topics : list bytes) (m : marks) (ev : Z * Z) : res marks :=
   let '(index, partition, h) := gen_commit_target (fst ev) (snd ev) in
   name <- idx topics index ;;
